@@ -20,8 +20,8 @@ EXTENDS Integers, Sequences, FiniteSets, TLC, Json
 
 \* ---- content classes ---------------------------------------------------------
 Content == {"out-addr", "out-split", "fee-shift", "arb", "claim", "contract", "revision", "renewal-final",
-            "renewal-new", "attest-value", "fnd-addr", "uncovered-out"}
-Witness == {"sig-flip", "sig-drop", "sig-extra", "sig-swap", "pre-wrong", "pre-extra", "pre-drop"}
+            "renewal-new", "attest-value", "fnd-addr", "uncovered-out", "second-out"}
+Witness == {"sig-flip", "sig-drop", "sig-extra", "sig-swap", "sig-dup-key", "pre-wrong", "pre-extra", "pre-drop"}
 Keys    == {"other-policy", "other-key", "proposed-keys", "renew-other-keys", "renew-stale-keys", "attest-other-key",
             "fnd-unauthorised", "contract-sig-flip", "renewal-sig-flip", "attest-sig-flip", "timelocked-policy",
             "relabel-parent", "stale-keys", "alg-swap", "fnd-append"}
@@ -36,6 +36,9 @@ Shapes == [
   \* alg-swap: the same key bytes presented under an algorithm nobody verifies - other unlock conditions, another address
   v1whole    |-> Shape(AllPay, AllPay, {"sig"}, FALSE, {"other-policy", "other-key", "alg-swap"}),
   v1partial  |-> Shape(AllPay \cup {"uncovered-out"}, {"out-addr", "out-split", "fee-shift"}, {"sig"}, FALSE, {"other-policy", "other-key"}),
+  \* a partial signature naming output 1 only (the list of covered outputs is not a prefix of the outputs): output 1 is
+  \* bound, output 0 and the memo are not
+  v1partial1 |-> Shape(AllPay \cup {"second-out"}, {"second-out", "out-split", "fee-shift"}, {"sig"}, FALSE, {"other-policy", "other-key"}),
   v1multisig |-> Shape(AllPay, AllPay, {"sig", "sig2"}, FALSE, {"other-policy", "other-key"}),
   \* a key of an unknown algorithm is satisfied by any signature bytes (documented legacy rule), so nothing binds the content
   v1unknown  |-> Shape(AllPay, {}, {"sig"}, TRUE, {"other-policy"}),
@@ -72,6 +75,7 @@ Applies(s, t) ==
   \/ t \in Content /\ t \in sh.has
   \/ t \in {"sig-flip", "sig-drop", "sig-extra"} /\ "sig" \in sh.wit
   \/ t = "sig-swap" /\ "sig2" \in sh.wit
+  \/ t = "sig-dup-key" /\ s = "v1multisig"        \* the second required signature made by the first key once more
   \/ t \in {"pre-wrong", "pre-extra", "pre-drop"} /\ "pre" \in sh.wit
   \/ t = "pre-extra" /\ "sig" \in sh.wit /\ s \in {"v2pk", "v2thresh"}      \* a preimage nobody asked for
   \/ t \in Keys /\ t \in sh.keys
@@ -97,5 +101,5 @@ Next == ~done /\ done' = TRUE
 \* coherence of the table
 CoveredPresent == \A s \in ShapeNames : Shapes[s].covered \subseteq Shapes[s].has
 EveryShapeHasRejects == \A s \in ShapeNames : \E t \in Tampers : Applies(s, t) /\ Expected(s, t) = "reject"
-UncoveredOnlyPartial == \A s \in ShapeNames : (Shapes[s].has \ Shapes[s].covered # {}) => (s \in {"v1partial", "v1fndpartial"} \/ Shapes[s].any)
+UncoveredOnlyPartial == \A s \in ShapeNames : (Shapes[s].has \ Shapes[s].covered # {}) => (s \in {"v1partial", "v1partial1", "v1fndpartial"} \/ Shapes[s].any)
 =============================================================================
